@@ -614,7 +614,8 @@ class CollapseAmbiguities(Transformer):
 
     """
     def _ambig(self, options):
-        return sum(options, [])
+        # an alternative that is a bare leaf (e.g. the None placeholder an inlined ``?rule`` collapsed to) is not a list yet
+        return sum((o if isinstance(o, list) else [o] for o in options), [])
 
     def __default__(self, data, children_lists, meta):
         children_lists = [c if isinstance(c, list) else [c] for c in children_lists]   # e.g. None placeholders
